@@ -121,6 +121,7 @@ static int do_single(const char *in, const char *outname) {
     if (g_fhe > 0.)
       fprintf(out, ",\"dephe\":[%s],\"heathe\":[%s]", dephe.c_str(), heathe.c_str());
     fprintf(out, "}\n");
+    fflush(out);
     g_fhe = 0.;
     (void)ncell;
   }
@@ -258,6 +259,7 @@ static int do_multi(const char *in, const char *outname) {
         fprintf(out, "%s%.17g", i ? "," : "", heat[i]);
     }
     fprintf(out, "]}\n");
+    fflush(out);
   }
   fclose(out);
   return 0;
